@@ -6,6 +6,7 @@ import (
 	"go/token"
 	"go/types"
 	"os"
+	"sort"
 	"strings"
 
 	"golang.org/x/tools/go/ssa"
@@ -174,6 +175,19 @@ func (l mapLoop) everyIteration(is func(ssa.Instruction) bool) bool {
 	return !pathExists(l.Next.Parent(), first, l.Next, nil, is)
 }
 
+// everyIterationUnless is everyIteration with iterations excused when they take an edge accepted by excuse.
+func (l mapLoop) everyIterationUnless(excuse EdgePred, is func(ssa.Instruction) bool) bool {
+	body := l.Header.Succs[0]
+	if len(body.Instrs) == 0 {
+		return false
+	}
+	first := body.Instrs[0]
+	if is(first) {
+		return true
+	}
+	return !pathExists(l.Next.Parent(), first, l.Next, excuse, is)
+}
+
 // hasBreakOrContinue is not needed: everyIteration is decided on paths.
 
 // isInstr builds an instruction predicate from a set.
@@ -254,14 +268,26 @@ func vCtxValue(keyType string, key int64) VPred {
 // withValueCalls lists the context.WithValue calls of f with their constant key of keyType.
 func withValueCalls(f *ssa.Function, keyType string) map[*ssa.Call]int64 {
 	out := map[*ssa.Call]int64{}
-	for _, ci := range callsIn(f, "context.WithValue") {
-		c, ok := ci.(*ssa.Call)
+	wvEnv = map[*ssa.Call]map[*ssa.Parameter]ssa.Value{}
+	// per calling context: a helper wrapping WithValue (requestWithValue(r, key, v)) is given the key by its caller
+	for _, site := range callSitesUnder(f, "context.WithValue") {
+		c, ok := site.In.(*ssa.Call)
 		if !ok {
 			continue
 		}
-		if k, ok := ctxKeyConst(c.Call.Args[1], keyType); ok {
-			out[c] = k
-		}
+		site.at(func() {
+			wvEnv[c] = site.Fr.env
+			if k, ok := ctxKeyConst(c.Call.Args[1], keyType); ok {
+				out[c] = k
+				return
+			}
+			os := originsOf(c.Call.Args[1])
+			if len(os) == 1 {
+				if k, ok := ctxKeyConst(os[0].V, keyType); ok {
+					out[c] = k
+				}
+			}
+		})
 	}
 	return out
 }
@@ -388,6 +414,176 @@ func literalsOrBoundMethods(outer *ssa.Function, match func(*types.Signature) bo
 				}
 			}
 		}
+	}
+	return out
+}
+
+// wvEnv remembers, for the WithValue calls listed by the latest withValueCalls, the parameter binding of the calling
+// context each was found in (a store made by a shared helper gets its key and value from the helper's caller).
+var wvEnv = map[*ssa.Call]map[*ssa.Parameter]ssa.Value{}
+
+// wvAt evaluates fn under the calling context of a WithValue call listed by withValueCalls.
+func wvAt(call *ssa.Call, fn func()) {
+	env, ok := wvEnv[call]
+	if !ok {
+		fn()
+		return
+	}
+	saved := paramEnv
+	paramEnv = env
+	defer func() { paramEnv = saved }()
+	fn()
+}
+
+// wvArg is argument i of a WithValue call listed by withValueCalls, with a helper's parameter replaced by what the
+// helper's caller passed.
+func wvArg(call *ssa.Call, i int) ssa.Value {
+	v := call.Call.Args[i]
+	env := wvEnv[call]
+	for n := 0; n < 6; n++ {
+		prm, ok := v.(*ssa.Parameter)
+		if !ok {
+			break
+		}
+		b, bound := env[prm]
+		if !bound {
+			break
+		}
+		v = b
+	}
+	return v
+}
+
+// ruleKeyConstantsDistinct: the package-level constants of the context-key type keyT ("rt/pkg.name") of package pkg
+// have pairwise distinct values (two values stored under one key overwrite each other: `iota` restarting in a second
+// const block is enough).
+func ruleKeyConstantsDistinct(c *Ctx, rule, pkg, keyT string) {
+	sc := c.P.TypesPkg(pkg).Scope()
+	seen := map[string]string{}
+	n := 0
+	names := sc.Names() // sorted
+	for _, name := range names {
+		k, ok := sc.Lookup(name).(*types.Const)
+		if !ok || typeStr(k.Type()) != keyT {
+			continue
+		}
+		n++
+		v := k.Val().ExactString()
+		prev, dup := seen[v]
+		c.definite = true
+		c.ob(rule, pkg, "key-distinct-"+name, "-", !dup, "context keys of type "+keyT+" are pairwise distinct", name+" equals "+prev+" (both "+v+")")
+		c.definite = false
+		if !dup {
+			seen[v] = name
+		}
+	}
+	c.obR(rule, pkg, "has-key-constants-"+keyT, "-", n >= 1, "the context-key type has constants", "")
+}
+
+// concatPieces flattens the construction of a string (or byte slice) into the ordered list of pieces it is assembled
+// from, whatever the spelling: `a + b`, conversions between string and []byte, a strings.Builder / bytes.Buffer
+// declared in the function and written in a straight line before .String() / .Bytes(), and []byte built by appends
+// onto an empty slice. Anything else is one opaque piece. ok is false when the assembly cannot be ordered.
+func concatPieces(v ssa.Value, depth int) ([]ssa.Value, bool) {
+	if depth > 12 {
+		return nil, false
+	}
+	v = resolve1(v)
+	switch x := v.(type) {
+	case *ssa.Const:
+		return []ssa.Value{x}, true
+	case *ssa.BinOp:
+		if x.Op == token.ADD {
+			if bt, ok := x.Type().Underlying().(*types.Basic); ok && bt.Info()&types.IsString != 0 {
+				a, ok1 := concatPieces(x.X, depth+1)
+				b, ok2 := concatPieces(x.Y, depth+1)
+				return append(a, b...), ok1 && ok2
+			}
+		}
+	case *ssa.Convert:
+		st, dt := typeStr(x.X.Type()), typeStr(x.Type())
+		if (st == "string" && dt == "[]byte") || (st == "[]byte" && dt == "string") {
+			return concatPieces(x.X, depth+1)
+		}
+	case *ssa.Call:
+		n := calleeName(&x.Call)
+		switch n {
+		case "(*strings.Builder).String", "(*bytes.Buffer).String", "(*bytes.Buffer).Bytes":
+			al, isAl := x.Call.Args[0].(*ssa.Alloc)
+			if !isAl || al.Parent() != x.Parent() {
+				return []ssa.Value{x}, true
+			}
+			var writes []*ssa.Call
+			for _, in := range ownInstrs(x.Parent()) {
+				w, isCall := in.(*ssa.Call)
+				if !isCall || w == x || len(w.Call.Args) == 0 || w.Call.Args[0] != ssa.Value(al) {
+					continue
+				}
+				switch calleeName(&w.Call) {
+				case "(*strings.Builder).WriteString", "(*strings.Builder).Write", "(*strings.Builder).WriteByte", "(*strings.Builder).WriteRune",
+					"(*bytes.Buffer).WriteString", "(*bytes.Buffer).Write", "(*bytes.Buffer).WriteByte", "(*bytes.Buffer).WriteRune":
+					writes = append(writes, w)
+				case "(*strings.Builder).Grow", "(*bytes.Buffer).Grow", "(*strings.Builder).Len", "(*bytes.Buffer).Len":
+				default:
+					return nil, false // reset, truncation, handed elsewhere …
+				}
+			}
+			// straight line: every write dominates the read-out, and the writes are totally ordered by dominance
+			sort.SliceStable(writes, func(i, j int) bool { return dominates(writes[i], writes[j]) })
+			var out []ssa.Value
+			for i, w := range writes {
+				if !dominates(w, x) || (i > 0 && !dominates(writes[i-1], w)) {
+					return nil, false
+				}
+				p, ok := concatPieces(w.Call.Args[1], depth+1)
+				if !ok {
+					return nil, false
+				}
+				out = append(out, p...)
+			}
+			return out, true
+		case "builtin append":
+			if typeStr(x.Type()) != "[]byte" || len(x.Call.Args) != 2 {
+				break
+			}
+			base, ok1 := concatPieces(x.Call.Args[0], depth+1)
+			var add []ssa.Value
+			ok2 := true
+			if elems, isLit := sliceLitElems(x.Call.Args[1]); isLit {
+				add = elems
+			} else {
+				add, ok2 = concatPieces(x.Call.Args[1], depth+1)
+			}
+			return append(base, add...), ok1 && ok2
+		}
+	case *ssa.MakeSlice:
+		if k, isK := constInt(x.Len); isK && k == 0 && typeStr(x.Type()) == "[]byte" {
+			return nil, true
+		}
+	case *ssa.Slice:
+		// make([]byte, 0, n) with a constant capacity is lowered to a slice of a local array
+		if al, isAl := x.X.(*ssa.Alloc); isAl && al.Comment == "makeslice" {
+			if k, isK := constInt(x.High); isK && k == 0 {
+				return nil, true
+			}
+		}
+	}
+	return []ssa.Value{v}, true
+}
+
+// pieceText renders the constant pieces of an assembly ("\x00" marks an opaque piece), for comparison with a pattern.
+func pieceText(ps []ssa.Value) string {
+	out := ""
+	for _, p := range ps {
+		if s, ok := constString(p); ok {
+			out += s
+			continue
+		}
+		if k, ok := constInt(p); ok && k >= 0 && k < 256 {
+			out += string(rune(k))
+			continue
+		}
+		out += "\x00"
 	}
 	return out
 }
